@@ -157,12 +157,21 @@ fn hostile_line(rng: &mut Rng, k: &Knobs, ctx: &mut Ctx) -> String {
                 ctx.count("fault.hostile_text.boundary_numeral");
                 boundary_statement(rng)
             } else {
-                let d = nest_depth(rng, k.huge_nesting);
-                ctx.count("fault.hostile_text.deep_nesting");
-                if d >= 1000 {
-                    ctx.count("fault.hostile_text.deep_nesting>=1000");
+                if rng.chance(1, 5) {
+                    let n = flat_length(rng, k.huge_nesting);
+                    ctx.count("fault.hostile_text.flat_chain");
+                    if n >= 100000 {
+                        ctx.count("fault.hostile_text.flat_chain>=100000");
+                    }
+                    flat_chain(rng, n)
+                } else {
+                    let d = nest_depth(rng, k.huge_nesting);
+                    ctx.count("fault.hostile_text.deep_nesting");
+                    if d >= 1000 {
+                        ctx.count("fault.hostile_text.deep_nesting>=1000");
+                    }
+                    nested(rng.pick(NEST_KINDS), d)
                 }
-                nested(rng.pick(NEST_KINDS), d)
             }
         }
     };
